@@ -12,6 +12,27 @@ pub struct Ctx {
     pub budget: u64,
     pub out: String,
     pub replay: Option<Value>,
+    /// run only this case index (crash replay)
+    pub only: Option<u64>,
+    /// write the case index to `current_case_<shard>.json` before every case (slow; crash diagnosis)
+    pub trace: bool,
+}
+impl Ctx {
+    /// case indices to execute: 0,1,2,... (monitors stop on their budget) or just the `--only` one
+    pub fn case_indices(&self) -> Box<dyn Iterator<Item = u64>> {
+        match self.only {
+            Some(k) => Box::new(std::iter::once(k)),
+            None => Box::new(0u64..),
+        }
+    }
+    /// call at the start of every case
+    #[inline]
+    pub fn mark_case(&self, k: u64) {
+        if self.trace {
+            let v = json!({"property": self.prop, "seed": self.seed, "shard": self.shard, "nshards": self.nshards, "tier": self.tier, "budget": self.budget, "k": k, "crash_replay": true});
+            let _ = std::fs::write(format!("current_case_{}.json", self.shard), v.to_string());
+        }
+    }
 }
 
 pub struct Shard {
